@@ -402,4 +402,4 @@ UNITS = [
 # the bounded queue's method units underlie "once each, in thread order" (C03) and "delivered intact" (C08) as a whole
 for u_ in UNITS:
     if u_['name'] in ('BQ.prepare_write', 'BQ.finish_write', 'BQ.commit_write', 'BQ.finish_and_commit_write', 'BQ.prepare_read', 'BQ.finish_read', 'BQ.commit_read', 'BQ.empty'):
-        u_['underlies'] = {'C03', 'C08'}
+        u_['underlies'] = {'C03', 'C08', 'C06', 'C07'}   # C06 / C07: a statement lost or duplicated in the queue is missing at the flush / at the stop
